@@ -262,4 +262,29 @@ def check_C09(pid, tier, seed, verdict):
                  "promptness is not measured, only completion"]
 
 
-CHECKS = {"C09": check_C09, "C11": check_C11, "C01": check_C01, "C02": check_C02, "C03": check_C03, "C04": check_C04, "C05": check_C05}
+# ------------------------------------------------------------------------------------------- C14
+def check_C14(pid, tier, seed, verdict):
+    mcs = [mc_must_hold(pid, verdict, "Heartbeat.tla", "MC_Heartbeat_deadline.cfg", workers=4),
+           mc_must_fail(pid, "Heartbeat.tla", "MC_Heartbeat_pinned.cfg", workers=4)]
+    g = V.run_gen(pid, "Heartbeat.tla", "Gen_Heartbeat.cfg")
+    mcs.append(g)
+    sp = os.path.join(V.workdir(pid), "gen.scn")
+    V.write_scenarios(sp, g["scenarios"])
+    run = V.run_harness(pid, "hb", seed, tier, sp)
+    res = V.run_trace(pid, "Trace_Heartbeat.tla", "Trace_Heartbeat.cfg", run["trace"])
+    verdict.add_trace_result("hb", res, run)
+    cnt = res["cnt"]
+    V.log(f"[{pid}] trace: {cnt['scn']} timelines, {cnt['hbreq']} requests, {cnt['closed']} closures judged, bad={len(res['bad'])} "
+          f"devs={len(res['devs'])}")
+    cov = _cov(mcs, cnt["scn"], cnt["nontrivial"],
+               "scenario = one (interval, timeout, round-trip delay, silence point) tuple of the full grid I,T in 1..4 s "
+               "(incl. T<I, T=I), delay 0..T-0.5 s, peer silent never / from the start / after 1..3 answers, x {idle, stream "
+               "traffic, traffic + peer stops reading}; the real client Session runs in virtual time against a scripted peer, "
+               "state sampled every 100 ms; quick tier replays one quarter of the grid chosen by the seed; non-trivial = "
+               "timelines whose end-of-observation verdict was judged", V.sample_descrs(run["descr"]), True,
+               dict(behaviours_generated=len(g["scenarios"]), trace_events=res["lines"], event_counts=cnt))
+    return cov, ["virtual time (paused clock); closure time is sampled with 100 ms granularity, tolerance 200 ms",
+                 "the peer's answers are delivered without transport delay beyond the configured round trip"]
+
+
+CHECKS = {"C14": check_C14, "C09": check_C09, "C11": check_C11, "C01": check_C01, "C02": check_C02, "C03": check_C03, "C04": check_C04, "C05": check_C05}
